@@ -734,7 +734,7 @@ class _SetOperation(Selectable, Term):
         selected_aliases = {s.alias for s in self.base_query._selects}
         for field, directionality in self._orderbys:
             term = (
-                format_quotes(field.alias, quote_char)
+                format_quotes(field.alias, kwargs.get("alias_quote_char") or quote_char)
                 if field.alias and field.alias in selected_aliases
                 else field.get_sql(quote_char=quote_char, **kwargs)
             )
